@@ -109,7 +109,9 @@ func (b *batch) DelCurrent(it storage.Iter) {
 
 func (b *batch) Commit(ctx context.Context) (err error) {
 	defer func() {
-		if err != nil {
+		// b.txn is nil when the transaction could not even be started (BeginBatchWrite keeps that
+		// error for Commit to return): there is nothing to roll back then
+		if err != nil && b.txn != nil {
 			b.txn.Rollback()
 		}
 	}()
